@@ -6,7 +6,7 @@ mkdir -p $tmp/r && cp -r /repo/jsonpath $tmp/r/jsonpath
 (cd $tmp/r && patch -s -p1 < $patch) || { echo "PATCH FAILED"; rm -rf $tmp; exit 3; }
 bad=0
 for i in 01 02 03 04 05 06 07 08 09 10 11 12 13 14 15 16 17 18 19 20; do
-  out=$(VERIF_REPO=$tmp/r /venv/bin/python /verif/check.py C$i 2>&1); rc=$?
+  out=$(VERIF_EVIDENCE_DIR=$tmp/ev VERIF_REPO=$tmp/r /venv/bin/python /verif/check.py C$i 2>&1); rc=$?
   if [ $rc -ne 0 ]; then bad=1; echo "C$i exit=$rc"; echo "$out" | grep -v "^VIOLATION" | head -4 | cut -c1-330; fi
 done
 rm -rf $tmp
